@@ -244,6 +244,35 @@ def run(ctx: Ctx, rs: RuleSet, tier: str):
            'a change whose target is the root is an error; collected errors '
            'raise', ctx.loc(vc, vc.node))
 
+  # ---- memoizable values are "equal" only if aligned
+  rule = 'DOM.aligned-or-equal'
+  rs.declare(rule, 'for memoizable values only the alignment decides; '
+             'identity / equality shortcuts apply to non-memoizable values', 1)
+  ae = ctx.func(f'{D}._DiffFromAlignmentBuilder.aligned_or_equal')
+  g = ctx.cfg(ae)
+  memo_if = [n for n in g.nodes() if g.kind[n] == 'if' and
+             'is_memoizable' in unparse(g.stmt[n].test)]
+  rets = [n for n in g.nodes() if isinstance(g.stmt[n], ast.Return)]
+  align_rets = [n for n in rets if 'alignment' in unparse(g.stmt[n].value)]
+  other_rets = [n for n in rets if n not in align_rets]
+  ok = len(memo_if) == 1 and bool(align_rets)
+  if ok:
+    m = memo_if[0]
+    t_reach = g.reach([x for x, lab in g.succ[m] if lab == 'true'],
+                      labels=cfg_lib.NO_EXC)
+    ok = (g.dominated_by(m, {g.entry}, labels=cfg_lib.NO_EXC) and
+          all(g.dominated_by(r, {m}, labels=cfg_lib.NO_EXC) for r in rets) and
+          all(r not in t_reach for r in other_rets) and
+          all(r in t_reach for r in align_rets))
+  rs.check(ok, rule, ae.qualname,
+           'the memoizable test comes first; on its true branch the only '
+           'result is the alignment lookup' if ok else
+           'a shortcut (identity or equality) can answer for a memoizable '
+           'value before / instead of the alignment: an object shared by '
+           'identity between old and new but aligned to a different object '
+           'is reported unchanged, so the diff drops a change',
+           ctx.loc(ae, ae.node))
+
   # ---- OWN
   ownrule.run_entry_points(
       ctx, rs, 'OWN.diff-unmodified',
